@@ -6,6 +6,7 @@ package props
 // vocabularies and the seed files whose mutations are enumerated.
 
 import (
+	"encoding/json"
 	"fmt"
 	"strconv"
 	"strings"
@@ -155,6 +156,9 @@ func c03Formats() []*c03Format {
 				{Name: "interleaved-strict", Text: "   2   8\na         ACGT\nb         AC-T\n\n          GGGG\n          TTTT\n", Strict: true, Relaxed: true},
 				{Name: "stream-of-two", Text: "1 2\na AC\n1 2\nb GT\n", Relaxed: true},
 				{Name: "stream-with-blank-line", Text: "2 2\na AC\nb GT\n\n2 2\na AC\nb GT\n", Relaxed: true},
+				{Name: "stream-fewer-rows-later", Text: "3 4\na ACGT\nb AC-T\nc TTGA\n2 4\nd TTTT\ne GGGG\n", Relaxed: true},
+				{Name: "stream-fewer-rows-later-strict", Text: "   3   4\na         ACGT\nb         AC-T\nc         TTGA\n   2   4\nd         TTTT\ne         GGGG\n", Strict: true, Relaxed: true},
+				{Name: "stream-more-rows-later", Text: "1 4\na ACGT\n3 4\nd TTTT\ne GGGG\nf CCCC\n", Relaxed: true},
 				{Name: "crlf", Text: "2 2\r\na AC\r\nb GT\r\n", Relaxed: true},
 				{Name: "duplicate-names", Text: "3 2\na AC\na AC\na GT\n", Relaxed: true},
 				{Name: "duplicate-names-generated-form", Text: "4 2\na_0001 AC\na AC\na GT\na_0002 GG\n", Relaxed: true},
@@ -203,6 +207,8 @@ func c03Formats() []*c03Format {
 				{Name: "other-blocks", Text: "#NEXUS\nBEGIN TREES;\nTREE t = (a,b);\nEND;\nBEGIN FOO;\nBAR x;\nEND;\nBEGIN CHARACTERS;\nDIMENSIONS NCHAR=2;\nFORMAT DATATYPE=PROTEIN;\nMATRIX\np1 MK\np2 MR\n;\nEND;\n"},
 				{Name: "taxa-dimensions", Text: "#NEXUS\nBEGIN TAXA;\nDIMENSIONS NTAX=2;\nTAXLABELS a b;\nEND;\nBEGIN DATA;\nDIMENSIONS NTAX=2 NCHAR=2;\nFORMAT DATATYPE=DNA;\nMATRIX\na AC\nb GT\n;\nEND;\n"},
 				{Name: "lower-case-crlf", Text: "#nexus\r\nbegin data;\r\ndimensions ntax=2 nchar=2;\r\nformat datatype=dna;\r\nmatrix\r\na AC\r\nb GT\r\n;\r\nend;\r\n"},
+				{Name: "dimensions-after-matrix", Text: "#NEXUS\nBEGIN DATA;\nFORMAT DATATYPE=DNA;\nMATRIX\na ACGT\nb AC-T\n;\nDIMENSIONS NTAX=2 NCHAR=4;\nEND;\n"},
+				{Name: "dimensions-after-matrix-contradicting", Text: "#NEXUS\nBEGIN DATA;\nFORMAT DATATYPE=DNA;\nMATRIX\na ACGT\nb AC-T\n;\nDIMENSIONS NTAX=5 NCHAR=10;\nEND;\n"},
 				{Name: "no-dimensions", Text: "#NEXUS\nBEGIN DATA;\nMATRIX\na AC\nb GT\n;\nEND;\n"},
 				// symbols declared as a multi-byte character and used in the rows: NCHAR counts bytes or characters?
 				{Name: "two-byte-gap-symbol", Text: "#NEXUS\nBEGIN DATA;\nDIMENSIONS NTAX=2 NCHAR=5;\nFORMAT DATATYPE=DNA GAP=\u00e9;\nMATRIX\na AC\u00e9T\nb A\u00e9GT\n;\nEND;\n"},
@@ -720,8 +726,12 @@ func init() {
 			"the end-of-stream marker of the Phylip parsers is accepted on any input except the unmodified valid seeds",
 			"a CPU loop that never reads and an allocation that kills the process are caught by the master through the marked input (120 s without progress / worker death), not by the read counter",
 		},
-		Tasks:   c03Tasks,
-		Replay:  c03Replay,
+		Tasks:   func(tier string) []mc.Task { return append(c03Tasks(tier), c03AutoTasks()...) },
+		Replay: func(c *mc.Ctx, payload json.RawMessage) {
+			if !c03AutoReplay(c, payload) {
+				c03Replay(c, payload)
+			}
+		},
 		Vacuity: c03Vacuity,
 		// the stream protocol (parser goroutine -> channel -> consumer, Err read after the channel is
 		// closed) free-running under the Go race detector: a complement, the deciding step stays the enumeration
